@@ -9,6 +9,7 @@
 #include <tinyformat.h>
 #include <util/log.h>
 #include <util/threadnames.h>
+#include <util/verif_hooks.h>
 
 #include <algorithm>
 #include <iterator>
@@ -126,10 +127,12 @@ private:
                 // Check whether we need to do work at all
                 do_work = !m_result.has_value();
             }
+            VERIF_YIELD("checkqueue.batch_taken");
             // execute work
             if (do_work) {
                 for (T& check : vChecks) {
                     local_result = check();
+                    VERIF_YIELD("checkqueue.check_done");
                     if (local_result.has_value()) break;
                 }
             }
